@@ -1,5 +1,6 @@
 import ClusterVerif.Spec.C18
 import Mathlib.Data.List.Basic
+import Mathlib.Data.List.Nodup
 import Mathlib.Tactic.Cases
 import Mathlib.Tactic.ByContra
 import Mathlib.Tactic.Push
@@ -429,5 +430,302 @@ theorem blocked_has_holder {σ : State} {m : Mutex} {md : Mode} (h : canAcq σ m
 theorem mem_threadHolds {σ : State} {x : Hold} (hx : x ∈ σ) : (x.m, x.mode) ∈ threadHolds σ x.t := by
   simp only [threadHolds, List.mem_map, List.mem_filter]
   exact ⟨x, ⟨hx, by simp⟩, rfl⟩
+
+/-! ### C. `Alerts()` against the writer: the invariant -/
+namespace Alerts
+
+def crit (pc : RPc) : Prop := pc = .locked ∨ pc = .allocd ∨ pc = .ranging ∨ pc = .copied
+
+def goodList (l : List Nat) : Prop := 0 ∉ l ∧ l.Nodup
+
+structure RInv (s : Sys) (k : Nat) : Prop where
+  notCrashed : (s.readers k).pc ≠ .crashed
+  notSized : (s.readers k).pc ≠ .sized
+  holds : crit (s.readers k).pc → s.mux = some (k + 1)
+  allocd : (s.readers k).pc = .allocd → (s.readers k).res = List.replicate s.alerts.length 0
+  ranging : (s.readers k).pc = .ranging →
+    (s.readers k).m = s.alerts.length ∧ (s.readers k).i ≤ (s.readers k).m ∧
+    (s.readers k).res = List.replicate ((s.readers k).m - (s.readers k).i) 0 ++ (s.alerts.take (s.readers k).i).reverse
+  copied : (s.readers k).pc = .copied → (s.readers k).res = s.alerts.reverse
+  outs : ∀ l ∈ (s.readers k).outs, goodList l
+
+structure WInv (s : Sys) : Prop where
+  holds : s.wpc ≠ .idle → s.mux = some 0
+  nodup : (s.alerts ++ s.pending).Nodup
+  nozero : 0 ∉ s.alerts ++ s.pending
+
+def Inv (s : Sys) : Prop := WInv s ∧ ∀ k, RInv s k
+
+theorem upd_same (f : Nat → Reader) (k : Nat) (r : Reader) : upd f k r k = r := by simp [upd]
+theorem upd_other (f : Nat → Reader) {k j : Nat} (r : Reader) (h : j ≠ k) : upd f k r j = f j := by simp [upd, h]
+
+/-- a reader outside its critical section is untouched by whatever happens to the shared state -/
+theorem rinv_of_noncrit {s s' : Sys} {j : Nat} (h : s'.readers j = s.readers j)
+    (hn : ¬ crit (s.readers j).pc) (hr : RInv s j) : RInv s' j := by
+  have h1 : (s.readers j).pc ≠ .locked := fun e => hn (Or.inl e)
+  have h2 : (s.readers j).pc ≠ .allocd := fun e => hn (Or.inr (Or.inl e))
+  have h3 : (s.readers j).pc ≠ .ranging := fun e => hn (Or.inr (Or.inr (Or.inl e)))
+  have h4 : (s.readers j).pc ≠ .copied := fun e => hn (Or.inr (Or.inr (Or.inr e)))
+  constructor <;> rw [h]
+  · exact hr.notCrashed
+  · exact hr.notSized
+  · intro hc; exact absurd hc hn
+  · intro hc; exact absurd hc h2
+  · intro hc; exact absurd hc h3
+  · intro hc; exact absurd hc h4
+  · exact hr.outs
+
+/-- a step that leaves alerts, the mutex and reader j alone keeps reader j's invariant -/
+theorem rinv_frame {s s' : Sys} {j : Nat} (h : s'.readers j = s.readers j) (ha : s'.alerts = s.alerts)
+    (hm : s'.mux = s.mux) (hr : RInv s j) : RInv s' j := by
+  constructor <;> rw [h] <;> try rw [ha] <;> try rw [hm]
+  · exact hr.notCrashed
+  · exact hr.notSized
+  · rw [hm]; exact hr.holds
+  · exact hr.allocd
+  · exact hr.ranging
+  · exact hr.copied
+  · exact hr.outs
+
+theorem set_mid (l1 l2 : List Nat) (x v : Nat) : (l1 ++ x :: l2).set l1.length v = l1 ++ v :: l2 := by
+  induction l1 with
+  | nil => rfl
+  | cons a as ih => simp only [List.cons_append, List.length_cons, List.set_cons_succ, ih]
+
+/-- one iteration of `alerts[total-1-i] = a` -/
+theorem loop_iter (alerts : List Nat) (i : Nat) (hi : i < alerts.length) :
+    (List.replicate (alerts.length - i) 0 ++ (alerts.take i).reverse).set
+        ((List.replicate (alerts.length - i) 0 ++ (alerts.take i).reverse).length - 1 - i) (alerts.getD i 0)
+      = List.replicate (alerts.length - (i + 1)) 0 ++ (alerts.take (i + 1)).reverse := by
+  have hlen : (List.replicate (alerts.length - i) 0 ++ (alerts.take i).reverse).length = alerts.length := by
+    simp only [List.length_append, List.length_replicate, List.length_reverse, List.length_take]
+    omega
+  rw [hlen]
+  have hd : alerts.length - i = (alerts.length - (i + 1)) + 1 := by omega
+  rw [hd, List.replicate_succ', List.append_assoc]
+  have hidx : alerts.length - 1 - i = (List.replicate (alerts.length - (i + 1)) 0).length := by
+    simp only [List.length_replicate]; omega
+  rw [hidx]
+  simp only [List.singleton_append]
+  rw [set_mid]
+  congr 1
+  rw [List.take_add_one, List.reverse_append]
+  have : alerts[i]? = some alerts[i] := List.getElem?_eq_getElem hi
+  simp [List.getD, this]
+
+theorem noncrit_of_mux {s : Sys} {j : Nat} {v : Option Nat} (hr : RInv s j) (hm : s.mux = v) (hv : v ≠ some (j + 1)) :
+    ¬ crit (s.readers j).pc := fun hc => hv (by rw [← hm]; exact hr.holds hc)
+
+theorem inv_stepWriter (cfg : Cfg) {s : Sys} (hinv : Inv s) : Inv (stepWriter cfg s) := by
+  obtain ⟨hw, hr⟩ := hinv
+  have hnd := hw.nodup
+  have hnz := hw.nozero
+  unfold stepWriter
+  cases hpc : s.wpc with
+  | idle =>
+    simp only
+    cases hp : s.pending with
+    | nil => simp only; exact ⟨hw, hr⟩
+    | cons a rest =>
+      cases hm : s.mux with
+      | some v => simp only; exact ⟨hw, hr⟩
+      | none =>
+        simp only
+        rw [hp] at hnd hnz
+        refine ⟨⟨fun _ => rfl, hnd, hnz⟩, fun j => ?_⟩
+        exact rinv_of_noncrit (s := s) rfl (noncrit_of_mux (hr j) hm (by simp)) (hr j)
+  | locked =>
+    have hmux : s.mux = some 0 := hw.holds (by rw [hpc]; simp)
+    have hnc : ∀ j, ¬ crit (s.readers j).pc := fun j => noncrit_of_mux (hr j) hmux (by simp)
+    simp only
+    split
+    · refine ⟨⟨fun _ => hmux, ?_, ?_⟩, fun j => rinv_of_noncrit (s := s) rfl (hnc j) (hr j)⟩
+      · simp only [List.nil_append]
+        exact (List.nodup_append.mp hnd).2.1
+      · intro h0
+        simp only [List.nil_append] at h0
+        exact hnz (List.mem_append_right _ h0)
+    · exact ⟨⟨fun _ => hmux, hnd, hnz⟩, fun j => rinv_of_noncrit (s := s) rfl (hnc j) (hr j)⟩
+  | checked =>
+    have hmux : s.mux = some 0 := hw.holds (by rw [hpc]; simp)
+    have hnc : ∀ j, ¬ crit (s.readers j).pc := fun j => noncrit_of_mux (hr j) hmux (by simp)
+    simp only
+    cases hp : s.pending with
+    | nil =>
+      simp only
+      rw [hp] at hnd hnz
+      exact ⟨⟨fun _ => hmux, hnd, hnz⟩, fun j => rinv_of_noncrit (s := s) rfl (hnc j) (hr j)⟩
+    | cons a rest =>
+      simp only
+      rw [hp] at hnd hnz
+      refine ⟨⟨fun _ => hmux, ?_, ?_⟩, fun j => rinv_of_noncrit (s := s) rfl (hnc j) (hr j)⟩
+      · simpa [List.append_assoc] using hnd
+      · simpa [List.append_assoc] using hnz
+  | appended =>
+    have hmux : s.mux = some 0 := hw.holds (by rw [hpc]; simp)
+    have hnc : ∀ j, ¬ crit (s.readers j).pc := fun j => noncrit_of_mux (hr j) hmux (by simp)
+    simp only
+    exact ⟨⟨fun h => absurd rfl h, hnd, hnz⟩, fun j => rinv_of_noncrit (s := s) rfl (hnc j) (hr j)⟩
+
+theorem others_frame {s s' : Sys} {k : Nat} (hr : ∀ j, RInv s j)
+    (hrd : ∀ j, j ≠ k → s'.readers j = s.readers j) (ha : s'.alerts = s.alerts) (hm : s'.mux = s.mux)
+    {j : Nat} (hj : j ≠ k) : RInv s' j :=
+  rinv_frame (hrd j hj) ha hm (hr j)
+
+theorem others_noncrit {s s' : Sys} {k : Nat} (hr : ∀ j, RInv s j)
+    (hrd : ∀ j, j ≠ k → s'.readers j = s.readers j) (hk : crit (s.readers k).pc ∨ s.mux = none)
+    {j : Nat} (hj : j ≠ k) : RInv s' j := by
+  refine rinv_of_noncrit (s := s) (hrd j hj) ?_ (hr j)
+  intro hc
+  have hjm := (hr j).holds hc
+  rcases hk with hk | hk
+  · have hkm := (hr k).holds hk
+    rw [hjm] at hkm
+    simp only [Option.some.injEq, Nat.add_right_cancel_iff] at hkm
+    exact hj hkm
+  · rw [hk] at hjm; cases hjm
+
+theorem inv_stepReader (cfg : Cfg) (hcfg : cfg.sizeUnderLock = true) {s : Sys} (hinv : Inv s) (k : Nat) :
+    Inv (stepReader cfg s k) := by
+  obtain ⟨hw, hr⟩ := hinv
+  have hk := hr k
+  unfold stepReader
+  simp only
+  cases hpc : (s.readers k).pc with
+  | idle =>
+    simp only
+    by_cases htodo : (s.readers k).todo = 0
+    · simp only [htodo, if_true]; exact ⟨hw, hr⟩
+    · simp only [htodo, if_false, hcfg, if_true]
+      cases hm : s.mux with
+      | some v => exact ⟨hw, hr⟩
+      | none =>
+        simp only
+        refine ⟨⟨fun hne => ?_, hw.nodup, hw.nozero⟩, fun j => ?_⟩
+        · have := hw.holds hne; rw [hm] at this; cases this
+        · by_cases hj : j = k
+          · subst hj
+            exact { notCrashed := by simp [upd_same], notSized := by simp [upd_same],
+                    holds := fun _ => rfl, allocd := by simp [upd_same], ranging := by simp [upd_same],
+                    copied := by simp [upd_same], outs := by simpa [upd_same] using hk.outs }
+          · exact others_noncrit (s := s) (k := k) hr (fun j hj => upd_other _ _ hj) (Or.inr hm) hj
+  | sized => exact absurd hpc hk.notSized
+  | locked =>
+    simp only
+    have hmux := hk.holds (by rw [hpc]; exact Or.inl rfl)
+    refine ⟨⟨hw.holds, hw.nodup, hw.nozero⟩, fun j => ?_⟩
+    by_cases hj : j = k
+    · subst hj
+      exact { notCrashed := by simp [upd_same], notSized := by simp [upd_same],
+              holds := fun _ => hmux, allocd := by simp [upd_same], ranging := by simp [upd_same],
+              copied := by simp [upd_same], outs := by simpa [upd_same] using hk.outs }
+    · refine others_frame (s := s) (k := k) hr ?_ ?_ ?_ hj
+      · intro j' hj'; exact upd_other _ _ hj'
+      · rfl
+      · rfl
+  | allocd =>
+    simp only
+    have hmux := hk.holds (by rw [hpc]; exact Or.inr (Or.inl rfl))
+    have hres := hk.allocd hpc
+    refine ⟨⟨hw.holds, hw.nodup, hw.nozero⟩, fun j => ?_⟩
+    by_cases hj : j = k
+    · subst hj
+      exact { notCrashed := by simp [upd_same], notSized := by simp [upd_same],
+              holds := fun _ => hmux, allocd := by simp [upd_same],
+              ranging := by simp [upd_same, hres],
+              copied := by simp [upd_same], outs := by simpa [upd_same] using hk.outs }
+    · refine others_frame (s := s) (k := k) hr ?_ ?_ ?_ hj
+      · intro j' hj'; exact upd_other _ _ hj'
+      · rfl
+      · rfl
+  | ranging =>
+    simp only
+    have hmux := hk.holds (by rw [hpc]; exact Or.inr (Or.inr (Or.inl rfl)))
+    obtain ⟨hm, hile, hres⟩ := hk.ranging hpc
+    by_cases hlt : (s.readers k).i < (s.readers k).m
+    · simp only [hlt, if_true]
+      have hlen : (s.readers k).res.length = s.alerts.length := by
+        rw [hres]
+        simp only [List.length_append, List.length_replicate, List.length_reverse, List.length_take]
+        omega
+      have hlt2 : (s.readers k).i < (s.readers k).res.length := by rw [hlen, ← hm]; exact hlt
+      simp only [hlt2, if_true]
+      refine ⟨⟨hw.holds, hw.nodup, hw.nozero⟩, fun j => ?_⟩
+      by_cases hj : j = k
+      · subst hj
+        have hiter := loop_iter s.alerts (s.readers j).i (by rw [← hm]; exact hlt)
+        have hrng : (s.readers j).m = s.alerts.length ∧ (s.readers j).i + 1 ≤ (s.readers j).m ∧
+            (s.readers j).res.set ((s.readers j).res.length - 1 - (s.readers j).i) (s.alerts.getD (s.readers j).i 0)
+              = List.replicate ((s.readers j).m - ((s.readers j).i + 1)) 0 ++ (s.alerts.take ((s.readers j).i + 1)).reverse := by
+          refine ⟨hm, hlt, ?_⟩
+          rw [hm] at hres ⊢
+          rw [hres]
+          exact hiter
+        exact { notCrashed := by simp [upd_same, hpc], notSized := by simp [upd_same, hpc],
+                holds := fun _ => hmux, allocd := by simp [upd_same, hpc],
+                ranging := by simpa [upd_same] using hrng,
+                copied := by simp [upd_same, hpc], outs := by simpa [upd_same] using hk.outs }
+      · refine others_frame (s := s) (k := k) hr ?_ ?_ ?_ hj
+        · intro j' hj'; exact upd_other _ _ hj'
+        · rfl
+        · rfl
+    · simp only [hlt, if_false]
+      refine ⟨⟨hw.holds, hw.nodup, hw.nozero⟩, fun j => ?_⟩
+      by_cases hj : j = k
+      · subst hj
+        have hcp : (s.readers j).res = s.alerts.reverse := by
+          have hi : (s.readers j).i = s.alerts.length := by omega
+          rw [hres, hm, hi]
+          simp
+        exact { notCrashed := by simp [upd_same], notSized := by simp [upd_same],
+                holds := fun _ => hmux, allocd := by simp [upd_same], ranging := by simp [upd_same],
+                copied := by simpa [upd_same] using hcp, outs := by simpa [upd_same] using hk.outs }
+      · refine others_frame (s := s) (k := k) hr ?_ ?_ ?_ hj
+        · intro j' hj'; exact upd_other _ _ hj'
+        · rfl
+        · rfl
+  | copied =>
+    simp only
+    have hcrit : crit (s.readers k).pc := by rw [hpc]; exact Or.inr (Or.inr (Or.inr rfl))
+    have hmux := hk.holds hcrit
+    have hres := hk.copied hpc
+    refine ⟨⟨fun hne => ?_, hw.nodup, hw.nozero⟩, fun j => ?_⟩
+    · have := hw.holds hne; rw [hmux] at this; cases this
+    · by_cases hj : j = k
+      · subst hj
+        have hgood : goodList (s.readers j).res := by
+          rw [hres]
+          refine ⟨?_, ?_⟩
+          · intro h0
+            exact hw.nozero (List.mem_append_left _ (List.mem_reverse.mp h0))
+          · exact List.nodup_reverse.mpr (List.nodup_append.mp hw.nodup).1
+        have houts : ∀ l ∈ (s.readers j).res :: (s.readers j).outs, goodList l := by
+          intro l hl
+          simp only [List.mem_cons] at hl
+          rcases hl with rfl | hl
+          · exact hgood
+          · exact hk.outs l hl
+        exact { notCrashed := by simp [upd_same], notSized := by simp [upd_same],
+                holds := by simp [upd_same, crit], allocd := by simp [upd_same], ranging := by simp [upd_same],
+                copied := by simp [upd_same], outs := by simpa [upd_same] using houts }
+      · exact others_noncrit (s := s) (k := k) hr (fun j hj => upd_other _ _ hj) (Or.inl hcrit) hj
+  | crashed => exact absurd hpc hk.notCrashed
+
+theorem inv_init (pending : List Nat) (hnd : pending.Nodup) (h0 : 0 ∉ pending) (todo : Nat) : Inv (init pending todo) := by
+  refine ⟨⟨fun h => absurd rfl h, by simpa [init] using hnd, by simpa [init] using h0⟩, fun k => ?_⟩
+  constructor <;> simp [init, crit]
+
+theorem inv_run (cfg : Cfg) (hcfg : cfg.sizeUnderLock = true) (sched : List Nat) {s : Sys} (hinv : Inv s) :
+    Inv (run cfg s sched) := by
+  induction sched generalizing s with
+  | nil => exact hinv
+  | cons t ts ih =>
+    simp only [run, List.foldl_cons]
+    apply ih
+    cases t with
+    | zero => exact inv_stepWriter cfg hinv
+    | succ k => exact inv_stepReader cfg hcfg hinv k
+
+end Alerts
 
 end CV.C18
